@@ -64,6 +64,54 @@ def max0(x):
     return vmax(x, Rat.const(0))
 
 
+def ref_slab(a_, b_, h_, n_, scale):
+    """Reference: the line t*n meets the slab {x: 0 <= (x - b).a <= h}; returns (meets, t_low, t_high) as terms."""
+    nd, bd = T.dot(n_, a_), T.dot(b_, a_)
+    inplane = T.fn_bool('and', T.fn_cmp('<=', bd, Rat.const(0)), T.fn_cmp('>=', bd, -h_))
+    par = T.fn_cmp('==', T.fn_abs(nd), Rat.const(0))
+    t0 = bd / nd
+    t1 = t0 + h_ / nd
+    inf = Rat.const(float('inf')) * scale
+    return (T.fn_bool('or', inplane, Rat.fn('not', par)), T.fn_where(par, -inf, vmin(t0, t1)), T.fn_where(par, inf, vmax(t1, t0)))
+
+
+def ref_cylinder(a_, b_, r_, n_, scale):
+    """Reference: the line t*n meets the infinite cylinder of radius r around the axis a through b."""
+    nxa = T.cross(n_, a_)
+    nsq = T.dot(nxa, nxa)
+    par = T.fn_cmp('==', nsq, Rat.const(0))
+    s2 = nsq * r_**2 - T.dot(b_, nxa) ** 2
+    sq = T.sqrt(s2)
+    m = T.dot(nxa, T.cross(b_, a_))
+    inter = T.fn_cmp('>=', s2, Rat.const(0))
+    inside = T.fn_cmp('<=', T.norm(b_ - a_ * T.dot(b_, a_)), r_)
+    inf = Rat.const(float('inf')) * scale
+    return (T.fn_where(par, inside, inter), T.fn_where(par, -inf, (m - sq) / nsq), T.fn_where(par, inf, (m + sq) / nsq))
+
+
+def ref_interval(a0, a1, b0, b1):
+    left, right = vmax(a0, b0), vmin(a1, b1)
+    return max0(max0(right) - max0(left))
+
+
+def as_triple(it, v):
+    """A 3-tuple result, also when it is handed out as a NamedTuple / dataclass of three variables."""
+    if isinstance(v, SObj):
+        try:
+            v = tuple(it.iterate(v, None)) if it.is_namedtuple(v.cls) else tuple(it.getattr(v, n, None) for n, _ in v.cls.dataclass_fields())
+        except Exception:  # noqa: BLE001
+            return None
+    if isinstance(v, list):
+        v = tuple(v)
+    if isinstance(v, tuple) and len(v) == 3 and all(isinstance(x, SVar) and x.term is not None for x in v):
+        return v
+    return None
+
+
+def params_of(fi):
+    return [a.arg for a in fi.node.args.args + fi.node.args.kwonlyargs]
+
+
 def call(wi, fi, args, kwargs=None, bound=None):
     from sa.interp import RaiseSignal
     try:
@@ -348,9 +396,9 @@ def run(tier: str) -> Run:
     r3.check(kindq == 'raise', 'unknown rule name is refused', loc(sfi), {'outcome': (kindq, resq if kindq == 'raise' else None)}, key='rule:unknown')
 
     # ---- R4 transmission ---------------------------------------------------------------------
-    r4 = run.rule('R4', 'transmission = sum w exp(-mu (L_in + L_out)) / volume, L_in along -beam_direction', 3)
+    r4 = run.rule('R4', 'transmission = sum w exp(-mu (L_in + L_out)) / volume, L_in along -beam_direction (decided on compute_transmission_map; helper decided where it exists)', 2)
     bmod = 'absorption.base'
-    tfi = repo.func(bmod, '_transmission_fraction')
+    tfi = repo.module(bmod).functions.get('_transmission_fraction')  # private helper: decided where it exists with today's interface
     mat_cls, sp_cls = repo.cls('absorption.material', 'Material'), repo.cls('atoms', 'ScatteringParams')
 
     def targs(it):
@@ -358,18 +406,19 @@ def run(tier: str) -> Run:
                            'absorption_cross_section': make_param(it, 'sigma_a', P(dim='AREA', unit=Unit.named('barn')))})
         mat = SObj(mat_cls, {'scattering_params': sp, 'effective_sample_number_density': make_param(it, 'n', P(dim='L^-3', unit=Unit({'angstrom': -3})))})
         return {'material': mat, 'distance_through_sample': make_param(it, 'L', P(dim='L')), 'wavelength': make_param(it, 'wavelength', P(dim='L'))}
-    T.reset()
-    it = Interp(repo, Model())
-    outs = it.run_all(lambda i: i.call_function(tfi, [], targs(i)))
-    ok = len(outs) == 1 and outs[0].kind == 'return' and outs[0].value.term is not None
-    detail = {}
-    if ok:
-        mu = S('n', True) * (S('sigma_s', True) + S('sigma_a', True) * S('wavelength', True) / (Rat.const(1.7982) * Unit.named('angstrom').scale()))
-        want = T.fn_exp(-mu * S('L', True))
-        bad = [e.detail for e in events(outs[0], 'unit-conversion-incompatible')]
-        ok = eq_term(outs[0].value.term, want) and not bad
-        detail = {'computed': show(outs[0].value)[:200], 'unit_problems': bad}
-    r4.check(ok, '_transmission_fraction', loc(tfi), detail, key='fraction')
+    if tfi is not None and sorted(params_of(tfi)) == ['distance_through_sample', 'material', 'wavelength']:
+        T.reset()
+        it = Interp(repo, Model())
+        outs = it.run_all(lambda i: i.call_function(tfi, [], targs(i)))
+        ok = len(outs) == 1 and outs[0].kind == 'return' and outs[0].value.term is not None
+        detail = {}
+        if ok:
+            mu = S('n', True) * (S('sigma_s', True) + S('sigma_a', True) * S('wavelength', True) / (Rat.const(1.7982) * Unit.named('angstrom').scale()))
+            want = T.fn_exp(-mu * S('L', True))
+            bad = [e.detail for e in events(outs[0], 'unit-conversion-incompatible')]
+            ok = eq_term(outs[0].value.term, want) and not bad
+            detail = {'computed': show(outs[0].value)[:200], 'unit_problems': bad}
+        r4.check(ok, '_transmission_fraction', loc(tfi), detail, key='fraction')
     cfi = repo.func(bmod, 'compute_transmission_map')
     T.reset()
     wm = WitnessModel()
@@ -425,68 +474,52 @@ def run(tier: str) -> Run:
         if set(coords) != {'detector_position', 'wavelength'}:
             probs.append(f'coords {sorted(coords)}')
     r4.check(not probs, 'weighted sum divided by the volume; L_in along -beam, L_out towards the detector', loc(cfi), {'problems': probs[:4]}, key='map')
-    dfi = repo.func(bmod, '_single_scatter_distance_through_sample')
+    dfi = repo.module(bmod).functions.get('_single_scatter_distance_through_sample') or cfi
     r4.check(not any('beam' in p_ or 'detector' in p_ or 'start' in p_ for p_ in probs), 'L_in along -beam, L_out towards the detector', loc(dfi), {'problems': probs[:4]}, key='distance')
 
     # ---- R5 geometry formulas ---------------------------------------------------------------------
-    r5 = run.rule('R5', 'interval, slab and infinite-cylinder intersection formulas', 4)
-    pif = repo.func(MOD, '_positive_interval_intersection')
-    T.reset()
-    it = Interp(repo, Model())
+    r5 = run.rule('R5', 'Cylinder.beam_intersection equals the reference composition of the interval, slab and infinite-cylinder formulas (helpers decided where they exist)', 1)
+    helpers = repo.module(MOD).functions
+    # private helpers are decided where they exist with today's interface; the public method below is decided in any case
+    pif = helpers.get('_positive_interval_intersection')
+    if pif is not None and len(params_of(pif)) == 2:
+        T.reset()
+        it = Interp(repo, Model())
 
-    def iargs(i):
-        mk = lambda n: make_param(i, n, P(dim='L', positive=False, unit=Unit.param('len')))  # noqa: E731
-        return [(mk('a0'), mk('a1')), (mk('b0'), mk('b1'))]
-    outs = it.run_all(lambda i: i.call_function(pif, iargs(i), {}))
-    ok = len(outs) == 1 and outs[0].kind == 'return' and outs[0].value.term is not None
-    if ok:
-        left, right = vmax(S('a0'), S('b0')), vmin(S('a1'), S('b1'))
-        want = max0(max0(right) - max0(left))
-        ok = eq_term(outs[0].value.term, want)
-    r5.check(ok, '_positive_interval_intersection', loc(pif), {'computed': show(outs[0].value)[:200] if outs else None}, key='interval')
+        def iargs(i):
+            mk = lambda n: make_param(i, n, P(dim='L', positive=False, unit=Unit.param('len')))  # noqa: E731
+            return [(mk('a0'), mk('a1')), (mk('b0'), mk('b1'))]
+        outs = it.run_all(lambda i: i.call_function(pif, iargs(i), {}))
+        ok = len(outs) == 1 and outs[0].kind == 'return' and isinstance(outs[0].value, SVar) and outs[0].value.term is not None
+        if ok:
+            ok = eq_term(outs[0].value.term, ref_interval(S('a0'), S('a1'), S('b0'), S('b1')))
+        r5.check(ok, '_positive_interval_intersection', loc(pif), {'computed': show(outs[0].value)[:200] if outs and outs[0].kind == 'return' else None}, key='interval')
 
-    slab = repo.func(MOD, '_line_slab_intersection')
-    vs = {'a': P(kind='vector', dim='ONE', dtype='vector3', unit=Unit()), 'b': P(kind='vector', dim='L', dtype='vector3', unit=Unit.param('len')),
-          'h': P(dim='L', unit=Unit.param('len')), 'n': P(kind='vector', dim='ONE', dtype='vector3', unit=Unit())}
-    outs = returns(run_kernel(repo, slab, vs))
-    ok = len(outs) == 1 and isinstance(outs[0].value, tuple) and len(outs[0].value) == 3 and all(isinstance(x, SVar) and x.term is not None for x in outs[0].value)
-    detail = {}
-    if ok:
-        a_, b_, n_, h_ = V('a'), V('b'), V('n'), S('h', True)
-        nd, bd = T.dot(n_, a_), T.dot(b_, a_)
-        inplane = T.fn_bool('and', T.fn_cmp('<=', bd, Rat.const(0)), T.fn_cmp('>=', bd, -h_))
-        par = T.fn_cmp('==', T.fn_abs(nd), Rat.const(0))
-        t0 = bd / nd
-        t1 = t0 + h_ / nd
-        inf = Rat.const(float('inf'))
-        want = (T.fn_bool('or', inplane, Rat.fn('not', par)), T.fn_where(par, -inf * S('U:len', True), vmin(t0, t1)),
-                T.fn_where(par, inf * S('U:len', True), vmax(t1, t0)))
-        got = [x.term for x in outs[0].value]
-        ok = all(eq_term(g, w) for g, w in zip(got, want, strict=True))
-        detail = {'computed': [T.show(g)[:160] for g in got], 'expected': [T.show(w)[:160] for w in want]}
-    r5.check(ok, '_line_slab_intersection', loc(slab), detail, key='slab')
+    vec1 = P(kind='vector', dim='ONE', dtype='vector3', unit=Unit())
+    vecl = P(kind='vector', dim='L', dtype='vector3', unit=Unit.param('len'))
+    slab = helpers.get('_line_slab_intersection')
+    if slab is not None and params_of(slab) == ['a', 'b', 'h', 'n']:
+        outs = returns(run_kernel(repo, slab, {'a': vec1, 'b': vecl, 'h': P(dim='L', unit=Unit.param('len')), 'n': vec1}))
+        trip = as_triple(outs[0].interp, outs[0].value) if len(outs) == 1 else None
+        ok, detail = trip is not None, {}
+        if ok:
+            want = ref_slab(V('a'), V('b'), S('h', True), V('n'), S('U:len', True))
+            got = [x.term for x in trip]
+            ok = all(eq_term(g, w) for g, w in zip(got, want, strict=True))
+            detail = {'computed': [T.show(g)[:160] for g in got], 'expected': [T.show(w)[:160] for w in want]}
+        r5.check(ok, '_line_slab_intersection', loc(slab), detail, key='slab')
 
-    cylf = repo.func(MOD, '_line_infinite_cylinder_intersection')
-    vs = {'a': vs['a'], 'b': vs['b'], 'r': P(dim='L', unit=Unit.param('len')), 'n': vs['n']}
-    outs = returns(run_kernel(repo, cylf, vs))
-    ok = len(outs) == 1 and isinstance(outs[0].value, tuple) and len(outs[0].value) == 3 and all(isinstance(x, SVar) and x.term is not None for x in outs[0].value)
-    detail = {}
-    if ok:
-        a_, b_, n_, r_ = V('a'), V('b'), V('n'), S('r', True)
-        nxa = T.cross(n_, a_)
-        nsq = T.dot(nxa, nxa)
-        par = T.fn_cmp('==', nsq, Rat.const(0))
-        s2 = nsq * r_**2 - T.dot(b_, nxa) ** 2
-        s = T.sqrt(s2)
-        m = T.dot(nxa, T.cross(b_, a_))
-        inter = T.fn_cmp('>=', s2, Rat.const(0))
-        inside = T.fn_cmp('<=', T.norm(b_ - a_ * T.dot(b_, a_)), r_)
-        inf = Rat.const(float('inf')) * S('U:len', True)
-        want = (T.fn_where(par, inside, inter), T.fn_where(par, -inf, (m - s) / nsq), T.fn_where(par, inf, (m + s) / nsq))
-        got = [x.term for x in outs[0].value]
-        ok = all(eq_term(g, w) for g, w in zip(got, want, strict=True))
-        detail = {'computed': [T.show(g)[:160] for g in got], 'expected': [T.show(w)[:160] for w in want]}
-    r5.check(ok, '_line_infinite_cylinder_intersection', loc(cylf), detail, key='cylinder')
+    cylf = helpers.get('_line_infinite_cylinder_intersection')
+    if cylf is not None and params_of(cylf) == ['a', 'b', 'r', 'n']:
+        outs = returns(run_kernel(repo, cylf, {'a': vec1, 'b': vecl, 'r': P(dim='L', unit=Unit.param('len')), 'n': vec1}))
+        trip = as_triple(outs[0].interp, outs[0].value) if len(outs) == 1 else None
+        ok, detail = trip is not None, {}
+        if ok:
+            want = ref_cylinder(V('a'), V('b'), S('r', True), V('n'), S('U:len', True))
+            got = [x.term for x in trip]
+            ok = all(eq_term(g, w) for g, w in zip(got, want, strict=True))
+            detail = {'computed': [T.show(g)[:160] for g in got], 'expected': [T.show(w)[:160] for w in want]}
+        r5.check(ok, '_line_infinite_cylinder_intersection', loc(cylf), detail, key='cylinder')
     bfi = repo.func(MOD, 'Cylinder.beam_intersection')
     T.reset()
     it = Interp(repo, Model())
@@ -497,20 +530,20 @@ def run(tier: str) -> Run:
         start = make_param(i, 'start', P(kind='vector', dim='L', dtype='vector3', unit=Unit.param('len')))
         direction = make_param(i, 'dir', P(kind='vector', dim='ONE', dtype='vector3', unit=Unit()))
         got = i.call_function(bfi, [start, direction], {}, bound=cyl)
-        # the same geometry composed from the helpers whose formulas are decided above
-        base_point = i.model.binop(i, 'sub', cyl.attrs['center_of_base'], start, None)
-        c_ok, c0, c1 = i.call_function(cylf, [cyl.attrs['symmetry_line'], base_point, cyl.attrs['radius'], direction], {})
-        s_ok, s0, s1 = i.call_function(slab, [cyl.attrs['symmetry_line'], base_point, cyl.attrs['height'], direction], {})
-        both = i.model.binop(i, 'and', c_ok, s_ok, None)
-        length = i.call_function(pif, [(s0, s1), (c0, c1)], {})
-        zero = i.model.sc_scalar(i, [0.0], {'unit': start.unit}, None)
-        box['want'] = i.model.sc_where(i, [both, length, zero], {}, None)
+        # the same geometry from the reference formulas: slab and infinite cylinder around the axis through the base, seen from the start point
+        a_ = cyl.attrs['symmetry_line'].term
+        b_ = cyl.attrs['center_of_base'].term - start.term
+        scale = start.unit.scale()
+        c_ok, c0, c1 = ref_cylinder(a_, b_, cyl.attrs['radius'].term, direction.term, scale)
+        s_ok, s0, s1 = ref_slab(a_, b_, cyl.attrs['height'].term, direction.term, scale)
+        box['want'] = T.fn_where(T.fn_bool('and', c_ok, s_ok), ref_interval(s0, s1, c0, c1), Rat.const(0))
         return got
     outs = it.run_all(bi)
     ok = len(outs) == 1 and outs[0].kind == 'return' and isinstance(outs[0].value, SVar) and isinstance(outs[0].value.term, Rat) \
-        and isinstance(box.get('want'), SVar) and isinstance(box['want'].term, Rat) and outs[0].value.term.eq(box['want'].term)
+        and isinstance(box.get('want'), Rat) and outs[0].value.term.eq(box['want'])
     r5.check(ok, 'Cylinder.beam_intersection', loc(bfi), {'outcomes': [(o.kind, o.exc_type, o.where) for o in outs],
-                                                         'computed': show(outs[0].value)[:200] if outs and outs[0].kind == 'return' else None}, key='beam-intersection')
+                                                         'computed': show(outs[0].value)[:200] if outs and outs[0].kind == 'return' else None,
+                                                         'expected': T.show(box['want'])[:200] if isinstance(box.get('want'), Rat) else None}, key='beam-intersection')
 
     # ---- R6 ---------------------------------------------------------------------------------------
     r6 = run.rule('R6', 'quadrature / transmission code writes no module-level state and hands out no memoised arrays', 3)
